@@ -38,12 +38,12 @@ THETA_PROFILES = {
     "A": dict(MaxRecs=2, MaxItems=2, MaxParams=4, MaxEdits=1, Forms="{1, 2, 3, 5}",
               LowKinds='{"none", "inf", "mil", "val"}', UpKinds='{"none", "inf", "val"}', Reps="{2}",
               NameOpts="{TRUE, FALSE}", SpOpts="{0}", RepNames="FALSE", TailForms="{1, 3}",
-              TailLowKinds='{"none", "val"}', TailUpKinds='{"none", "val"}', NEditVals=1, NSlices=1),
+              TailLowKinds='{"none", "val"}', TailUpKinds='{"none", "val"}', NEditVals=1, NSlices=6),
     # sequences of two edits, alternative spellings, repeats with comments, (low,,up), low=init=up forms; sliced by seed
     "B": dict(MaxRecs=2, MaxItems=2, MaxParams=5, MaxEdits=2, Forms="{1, 2, 3, 4, 5}",
               LowKinds='{"none", "inf", "val", "eq"}', UpKinds='{"none", "mil", "val", "eq"}', Reps="{2, 3}",
               NameOpts="{TRUE, FALSE}", SpOpts="{1}", RepNames="TRUE", TailForms="{1, 3, 5}",
-              TailLowKinds='{"none", "val"}', TailUpKinds='{"none", "val"}', NEditVals=1, NSlices=120),
+              TailLowKinds='{"none", "val"}', TailUpKinds='{"none", "val"}', NEditVals=1, NSlices=720),
     # thorough: full square of two items, one edit, all kinds
     "TA": dict(MaxRecs=2, MaxItems=2, MaxParams=5, MaxEdits=1, Forms="{1, 2, 3, 4, 5}",
                LowKinds='{"none", "inf", "mil", "val", "eq"}', UpKinds='{"none", "inf", "mil", "val", "eq"}',
@@ -78,7 +78,7 @@ def _run_profile(module: str, name: str, consts: dict, invariants, actions, seed
     cfg = d / f"{module}_{name}.cfg"
     cfg.write_text(_cfg_text(consts, invariants))
     try:
-        res = core.run_tlc(SPEC / f"{module}.tla", cfg, workers=workers, timeout=3000, heap="3g")
+        res = core.run_tlc(SPEC / f"{module}.tla", cfg, workers=workers, timeout=3000, heap="2g")
     finally:
         shutil.rmtree(d, ignore_errors=True)
     out[(module, name)] = (res, consts)
@@ -95,7 +95,7 @@ def _tlc_all(tier: str, seed: int, v: core.Verdict):
         acts = OMEGA_ACTIONS + (OMEGA_STRUCT_ACTIONS if OMEGA_PROFILES[n]["Structural"] == "TRUE" else [])
         plan.append(("Omega", n, OMEGA_PROFILES[n], OMEGA_INVARIANTS, acts))
     out: dict = {}
-    ths = [threading.Thread(target=_run_profile, args=(m, n, c, inv, acts, seed, out, 4)) for m, n, c, inv, acts in plan]
+    ths = [threading.Thread(target=_run_profile, args=(m, n, c, inv, acts, seed, out, 3 if tier == "quick" else 4)) for m, n, c, inv, acts in plan]
     for t in ths:
         t.start()
         time.sleep(0.05)  # core.scratch names the TLC metadir by pid + millisecond: keep the starts apart
@@ -421,6 +421,7 @@ def _layout_feats_theta(case):
         "repeat_with_comment": any(it["rep"] > 1 and it["name"] for it in items),
         "has_repeat": any(it["rep"] > 1 for it in items),
         "repeat_with_inf_upper": any(it["rep"] > 1 and it["uk"] in ("inf", "mil") for it in items),
+        "repeat_with_implied_fix": any(it["rep"] > 1 and not it["fix"] and it["lk"] == "eq" and it["uk"] == "eq" for it in items),
         "n_items": len(items),
         "n_records": len(case["recs"]),
     }
@@ -456,13 +457,14 @@ def replay_theta(case):
     spell = {k: tuple(tokens(theta_item_text(it))) for k, it in items.items()}
     steps = [{"edit": {"op": "Empty", "p": 0}, "expect": case["read"], "untouched": [list(k) for k in sorted(items)],
               "in_repeat": False, "rec_size": 0, "added_target": False, "target_form": 0, "target_named": False,
-              "target_fix_in_parens": False, "rec_has_repeat": False}] + case["steps"]
+              "target_fix_in_parens": False, "rec_has_repeat": False, "target_uk_inf": False}] + case["steps"]
     respelled: set = set()
     for idx, s in enumerate(steps):
         e = s["edit"]
         stepinfo = {"index": idx, "op": e["op"], "in_repeat": s["in_repeat"], "rec_multi": s["rec_size"] > 1,
                     "added_target": s["added_target"], "target_form": s["target_form"], "target_named": s["target_named"],
-                    "target_fix_in_parens": s["target_fix_in_parens"], "rec_has_repeat": s["rec_has_repeat"]}
+                    "target_fix_in_parens": s["target_fix_in_parens"], "rec_has_repeat": s["rec_has_repeat"],
+                    "target_uk_inf": s["target_uk_inf"]}
         try:
             m2 = m.update_source() if e["op"] == "Empty" else _apply_theta_edit(m, e, _theta_names(m))
             code = m2.code
@@ -500,7 +502,8 @@ def replay_theta(case):
             bad(stepinfo, "spelling_changed", f"untouched item {' '.join(missing)} is no longer spelled that way in: "
                 + " | ".join(b.strip() for _, b in split_records(code, ('THE',))),
                 spell={"item": " ".join(missing), "has_inf_bound": it["lk"] in ("inf", "mil") or it["uk"] in ("inf", "mil"),
-                       "alt_spelling": it["sp"] == 1, "in_repeat": it["rep"] > 1, "has_bounds": it["lk"] != "none"}, code=code)
+                       "alt_spelling": it["sp"] == 1, "in_repeat": it["rep"] > 1, "has_bounds": it["lk"] != "none",
+                       "implied_fix": (not it["fix"]) and it["lk"] == "eq" and it["uk"] == "eq"}, code=code)
             # a respelled item does not corrupt the model: the case goes on (the same finding may be hit again)
         if failed:
             return out
@@ -530,8 +533,13 @@ def _stratified(cases, key, n, rng):
     strata: dict = {}
     for c in cases:
         strata.setdefault(key(c), []).append(c)
-    keys = sorted(strata)
-    for k in keys:
+    # the keys start with the number of edits: every class of one-edit cases is served first, the classes of
+    # longer sequences follow in seeded order
+    first = sorted(k for k in strata if k.startswith("[0,") or k.startswith("[1,"))
+    rest = sorted(k for k in strata if k not in set(first))
+    rng.shuffle(rest)
+    keys = first + rest
+    for k in sorted(strata):
         rng.shuffle(strata[k])
     out = []
     i = 0
@@ -550,8 +558,8 @@ def _stratified(cases, key, n, rng):
 
 def _theta_stratum(c):
     its = [it for rec in c["recs"] for it in rec]
-    return json.dumps([[(it["form"], it["lk"] in ("inf", "mil") or it["uk"] in ("inf", "mil"), it["rep"]) for it in its],
-                       len(c["recs"]), [(s["edit"]["op"], s["in_repeat"]) for s in c["steps"]]])
+    return json.dumps([len(c["steps"]), any(it["lk"] in ("inf", "mil") or it["uk"] in ("inf", "mil") for it in its) if len(c["steps"]) <= 1 else None,
+                       [(s["edit"]["op"], s["in_repeat"], s["target_form"], s["target_named"], s["rec_size"] > 1) for s in c["steps"]]])
 
 
 def _run(tier, seed, v, cases):
@@ -560,7 +568,7 @@ def _run(tier, seed, v, cases):
     from . import c04_omega
 
     rng = random.Random(seed)
-    budget = {"quick": (1300, 1300), "thorough": (20000, 20000)}[tier]
+    budget = {"quick": (260, 300), "thorough": (20000, 20000)}[tier]
     scale = float(os.environ.get("VERIF_BUDGET_SCALE", "1"))  # < 1 only for fast mutant screening
     budget = (max(50, int(budget[0] * scale)), max(50, int(budget[1] * scale)))
     th, n_th_strata = _stratified(cases["Theta"], _theta_stratum, budget[0], rng)
@@ -600,6 +608,9 @@ def _run(tier, seed, v, cases):
 
 def main(tier: str, seed: int) -> int:
     v = core.Verdict("C04", tier, seed)
+    frag = json.loads((core.VERIF / "known_findings.d" / "C04.json").read_text())
+    own = {x["id"] for x in frag.get("findings", [])}  # a repaired entry may linger in the merged list
+    v.known = [k for k in v.known if k.get("property") != "C04" or k.get("id") in own]
     v.assumptions = [
         "layouts are rendered into one fixed minimal ADVAN1 model (every THETA/ETA/EPS used by one statement); values are small exact decimals",
         "positional default names (THETA_n, OMEGA_i_j, SIGMA_i_j) are treated as 'no name': the text cannot carry them across a renumbering",
@@ -607,7 +618,7 @@ def main(tier: str, seed: int) -> int:
     ]
     cases = _tlc_all(tier, seed, v)
     _run(tier, seed, v, cases)
-    return v.finish(min_traces=(500 if tier == "quick" else 5000) if float(os.environ.get("VERIF_BUDGET_SCALE", "1")) >= 1 else 20)
+    return v.finish(min_traces=(300 if tier == "quick" else 5000) if float(os.environ.get("VERIF_BUDGET_SCALE", "1")) >= 1 else 20)
 
 
 def replay(path: str) -> int:
